@@ -2049,7 +2049,10 @@ def translate() -> tuple[str, dict]:
     side['localise_sites'] = loc_sites
     world = [s for s in loc_sites if s['loop'] == 'file.vmf.brushes']
     entb = [s for s in loc_sites if s['loop'].startswith('zip(old_ent.solids')]
-    args_ok = all(s['args'] == ['origin', 'orient'] for s in loc_sites) and len(all_loc) == len(loc_sites)
+    # origin / orient are bound once to inst.pos / inst.orient and never re-bound (checked above): either spelling is the placement
+    def placement_args(args: list[str]) -> bool:
+        return [binds.get(a_, a_) if a_ in ('origin', 'orient') else a_ for a_ in args] == ['inst.pos', 'inst.orient']
+    args_ok = all(placement_args(s['args']) for s in loc_sites) and len(all_loc) == len(loc_sites)
     E.lines.append(f'Definition g_collapse_world_brush_localise_sites : nat := {len(world)}.')
     E.lines.append(f'Definition g_collapse_ent_brush_localise_sites : nat := {len(entb)}.')
     E.lines.append(f'Definition g_collapse_localise_args_are_instance_placement : bool := {"true" if args_ok else "false"}.')
@@ -2073,12 +2076,18 @@ def translate() -> tuple[str, dict]:
                 org_expr = st.value
         if isinstance(n, ast.AugAssign) and ast.unparse(n.target) == 'angles' and isinstance(n.op, ast.MatMult):
             ang_rot = n
+        # the same rotation written as a re-binding: angles = angles @ orient  (AngleBase.__matmul__, same matrix: g_angle_matmul)
+        if isinstance(n, ast.Assign) and len(n.targets) == 1 and ast.unparse(n.targets[0]) == 'angles' and isinstance(n.value, ast.BinOp) \
+                and isinstance(n.value.op, ast.MatMult) and ast.unparse(n.value.left) == 'angles':
+            ang_rot = n
     if org_expr is None:
         raise TranslateError("collapse_one: store to new_ent['origin'] not found")
-    if ang_rot is None or ast.unparse(ang_rot.value) != 'orient':
+    ang_arg = None if ang_rot is None else ang_rot.value if isinstance(ang_rot, ast.AugAssign) else ang_rot.value.right
+    if ang_arg is None or binds.get(ast.unparse(ang_arg), ast.unparse(ang_arg)) != 'inst.orient':
         raise TranslateError('collapse_one: `angles @= orient` not found')
     J, _ = site_interp()
-    r = J.eval(org_expr, {'value': SStr('value'), 'orient': sym_mat('m'), 'origin': sym_vec('o')})
+    o_, m_ = sym_vec('o'), sym_mat('m')
+    r = J.eval(org_expr, {'value': SStr('value'), 'orient': m_, 'origin': o_, 'inst': SObj('Instance', {'pos': o_, 'orient': m_})})
     E.define('g_collapse_ent_origin', [('p', V), ('o', V), ('m', Mx)], out_vec(r),
              "collapse_one: new_ent['origin'] as a function of the old origin p")
 
@@ -2151,7 +2160,7 @@ def translate() -> tuple[str, dict]:
     ang_branch_ret = node.body[0].value if isinstance(node.body[0], ast.Return) else None
     bind_stmts = [s_ for s_ in c1.body if isinstance(s_, ast.Assign) and isinstance(s_.targets[0], ast.Name)
                   and s_.targets[0].id in ('origin', 'orient')]
-    recognised: list[ast.AST] = [c_ for c_ in all_loc if [ast.unparse(a_) for a_ in c_.args] == ['origin', 'orient'] and not c_.keywords]
+    recognised: list[ast.AST] = [c_ for c_ in all_loc if placement_args([ast.unparse(a_) for a_ in c_.args]) and not c_.keywords]
     recognised += [org_expr, ang_rot, *bind_stmts, want['VEC'][1].body[0].value, want['EXT_VEC_DIRECTION'][1].body[0].value, *axis_vals]
     if ang_branch_ret is not None:
         recognised.append(ang_branch_ret)
